@@ -69,8 +69,10 @@ func count(s *Store, ctx context.Context, builders ...func(query *bun.SelectQuer
 	for _, builder := range builders {
 		query = query.Apply(builder)
 	}
+	// the sub-query is handed to bun as an argument: rendering it to a string and passing that string as the
+	// table expression would have bun parse the rendered text (bound values included) for placeholders once more
 	return s.bucket.db.NewSelect().
-		TableExpr("(" + query.String() + ") data").
+		TableExpr("(?) data", query).
 		Count(ctx)
 }
 
